@@ -7,8 +7,9 @@ import WcModel.Properties.C13
 #print axioms WcModel.C13.exclusions
 #print axioms WcModel.C13.exclusions_dotglob
 #print axioms WcModel.C13.single
+#print axioms WcModel.C13.shortcut_only_under_scandotdir
+#print axioms WcModel.C13.perPattern_nounique
+#print axioms WcModel.C13.shortcut_sound_of_injective
 #print axioms WcModel.C13.ignorecase_collapses
 #print axioms WcModel.C13.shortcut_duplicates
-#print axioms WcModel.C13.shortcut_sound_of_injective
 #print axioms WcModel.C13.shortcut_case_variants
-#print axioms WcModel.C13.shortcut_only_under_scandotdir
